@@ -41,7 +41,6 @@ package abi
 // Callees of the dispatcher that are not under contract: assumed to read (not write) the bytes they are handed.
 //@ directive pure-observer accounts/abi.isDynamicType
 //@ directive pure-observer accounts/abi.getTypeSize
-//@ directive readonly-args accounts/abi.ReadInteger
 //@ directive readonly-args accounts/abi.ReadFixedBytes
 //@ directive readonly-args accounts/abi.readFunctionType
 //@ directive readonly-args accounts/abi.forTupleUnpack
@@ -70,3 +69,22 @@ package abi
 //@   loop 1 "j < size"
 //@     invariant 0 <= j
 //@     assume-invariant 0 <= i && i <= 4611686018427387904
+
+// ---- integers: a 32-byte word is accepted for an N-bit integer type exactly when its value
+// (two's complement for the signed types) fits N bits.
+//@ directive bigconst MaxUint256 115792089237316195423570985008687907853269984665640564039457584007913129639935
+//@ pure func sval256(v int) int { return ite(v >= 57896044618658097711785492504343953926634992332820282019728792003956564819968, v - 115792089237316195423570985008687907853269984665640564039457584007913129639936, v) }
+
+//@ func ReadInteger(typ Type, b []byte) (v interface{}, err error)
+//@   serves C51
+//@   requires len(b) == 32
+//@   ensures typ.T == UintTy && typ.Size == 8 ==> (err == nil) == (bevalue(b) <= 255)
+//@   ensures typ.T == UintTy && typ.Size == 16 ==> (err == nil) == (bevalue(b) <= 65535)
+//@   ensures typ.T == UintTy && typ.Size == 32 ==> (err == nil) == (bevalue(b) <= 4294967295)
+//@   ensures typ.T == UintTy && typ.Size == 64 ==> (err == nil) == (bevalue(b) <= 18446744073709551615)
+//@   ensures typ.T == UintTy && typ.Size != 8 && typ.Size != 16 && typ.Size != 32 && typ.Size != 64 ==> err == nil
+//@   ensures typ.T != UintTy && typ.Size == 8 ==> (err == nil) == (0 - 128 <= sval256(bevalue(b)) && sval256(bevalue(b)) <= 127)
+//@   ensures typ.T != UintTy && typ.Size == 16 ==> (err == nil) == (0 - 32768 <= sval256(bevalue(b)) && sval256(bevalue(b)) <= 32767)
+//@   ensures typ.T != UintTy && typ.Size == 32 ==> (err == nil) == (0 - 2147483648 <= sval256(bevalue(b)) && sval256(bevalue(b)) <= 2147483647)
+//@   ensures typ.T != UintTy && typ.Size == 64 ==> (err == nil) == (0 - 9223372036854775808 <= sval256(bevalue(b)) && sval256(bevalue(b)) <= 9223372036854775807)
+//@   ensures typ.T != UintTy && typ.Size != 8 && typ.Size != 16 && typ.Size != 32 && typ.Size != 64 ==> err == nil
